@@ -3,8 +3,9 @@
 Decided: what the convergent key is a function of (provenance of every input of
 the hasher, all data chunks, nothing else), where the storage index and the
 read-cap key come from, which branch picks a random key, and the literal-file
-routing (threshold, comparison, data embedded, no server contact)
-(DESIGN.md section 5, C05)."""
+routing (threshold, comparison, data embedded, no server contact), the position of the
+file handle when the data reads start, and the independence of the hashes behind
+the cap from the share placement (DESIGN.md section 5, C05)."""
 from sa.h import *
 
 EXPLANATION = (
@@ -25,7 +26,18 @@ EXPLANATION = (
     "LiteralFileNode only use the embedded data; (5) EncryptAnUploadable hashes and encrypts every chunk it reads, "
     "first-in first-out, with the one encryptor, independent of the chunking; (6) the CHK read cap is stored with "
     "results.set_uri(cap.to_string()) on every path, the results and the Deferreds carrying them are returned, and "
-    "the read-cap step is registered on the Deferred every path of the CHK branch returns. "
+    "the read-cap step is registered on the Deferred every path of the CHK branch returns; (7) FileHandle.get_size(), "
+    "the first call of every upload, ends with the file handle rewound to offset 0 on every path that measures the file "
+    "(the last seek / read on self._filehandle before the exit is seek(0), unless __init__ rewinds and get_size does not "
+    "move the handle), no method of FileHandle / FileName / Data returns after moving the handle elsewhere, and "
+    "read(length) is self._filehandle.read(length) without any seek, so the literal data and the ciphertext start at "
+    "offset 0 wherever the caller left the handle; (8) in immutable.encode.Encoder every round of the share loop of "
+    "_send_segment appends block_hash(block) to self.block_hashes[..] (directly or through a method that does so on "
+    "every path), every round of send_all_block_hash_trees sets self.share_root_hashes[..] from a HashTree, the UEB "
+    "entries share_root_hash / crypttext_root_hash / crypttext_hash are stored on every path of their functions from "
+    "HashTree(self.share_root_hashes) / HashTree(self._crypttext_hashes) / self._crypttext_hasher.digest(), and none "
+    "of the loop iterables, stored values, accumulator sizes or codec.encode arguments depends on self.landlords / "
+    "self.servermap: the cap does not depend on which shares this upload pushes. "
     "Undecided: SHA-256d / AES-CTR behave as functions of their inputs (library), netstring injectivity (unit-tested); "
     "the value of the segment size (min with the file size, rounding to a multiple of k) beyond its dependency on "
     "max_segment_size; that the handle is at offset 0 when the key hashing starts if the first seek(0) is removed "
@@ -39,6 +51,17 @@ FH = UP + "FileHandle"
 RAW = Normaliser(Env(None, depth=0))
 REMOTE_TAILS = {"callRemote", "get_storage_broker", "get_servers_for_psi", "allocate_buckets", "get_buckets",
                 "get_shareholders", "get_storage_server", "connectTo"}
+# calls that leave a file object at another position than before
+MOVING_TAILS = {"read", "readline", "readlines", "readinto", "write", "writelines", "truncate"}
+# per-upload placement state of the Encoder: which shares have a bucket writer
+PLACEMENT = ("self.landlords", "self.servermap")
+
+
+def _is_rewind(c):
+    """c is <handle>.seek(0) / seek(0, 0) / seek(0, os.SEEK_SET)."""
+    return bool(c.args) and isinstance(c.args[0], ast.Constant) and c.args[0].value == 0 and not c.keywords and (
+        len(c.args) == 1 or (isinstance(c.args[1], ast.Constant) and c.args[1].value == 0)
+        or attr_path(c.args[1]) in ("os.SEEK_SET", "io.SEEK_SET"))
 
 
 def infeasible(n, lab):
@@ -250,10 +273,7 @@ def run(ctx: Context):
                        and c.func.value.id == hv and len(c.args) == 1 and isinstance(c.args[0], ast.Name)
                        and c.args[0].id == var for c in node_calls(n))
 
-        def is_rewind(c):
-            return bool(c.args) and isinstance(c.args[0], ast.Constant) and c.args[0].value == 0 and not c.keywords and (
-                len(c.args) == 1 or (isinstance(c.args[1], ast.Constant) and c.args[1].value == 0)
-                or attr_path(c.args[1]) in ("os.SEEK_SET", "io.SEEK_SET"))
+        is_rewind = _is_rewind
 
         def seeks(n):
             """'rewind' / 'moved' for the last seek on the file handle in statement n, else None."""
@@ -974,6 +994,326 @@ def run(ctx: Context):
                                       src(top, m.ast.value), x.recv))
             for w in reaches_exit_avoiding(tcfg, is_return):
                 r.violation(top, top.loc(), "%s can return None" % short(top), w)
+
+    # -- 7. the data reads start at offset 0 of the file, wherever the caller left the handle ------
+    with ctx.rule("C05.7", "R2/R7", "FileHandle: get_size() (the first call of every upload) leaves the file handle at "
+                  "offset 0 whenever it measures the file, no method of the FileHandle family leaves the handle at "
+                  "another position, and read(length) reads length bytes at the current position without seeking",
+                  expected=3) as r:
+        fhc = idx.cls(FH)
+        init = idx.func(FH + ".__init__")
+        gs = idx.func(FH + ".get_size")
+        rd = idx.func(FH + ".read")
+        hattr = "self._filehandle"
+        family = [fhc] + list(idx.subclasses(fhc))
+
+        def position_monitor(f, start_pos, aliases=()):
+            """Explore f with the state (position of the handle: 'unknown' / 'zero' / 'moved', the call that moved
+            it last, passed the 'size already known' edge).  -> [(exit state, witness)]"""
+            fcfg = f.cfg()
+            fnm = FlowNorm(f)
+
+            def on_handle(n, c):
+                return isinstance(c.func, ast.Attribute) and (
+                    fnm.norm(n, c.func.value) == hattr or attr_path(c.func.value) in aliases)
+
+            def tr(n, lab, nxt, st):
+                if lab == "exc" or infeasible(n, lab):
+                    return None
+                pos, why, cached = st
+                if n.kind in ("stmt", "test", "iter", "with"):
+                    for c in node_calls(n):
+                        if not on_handle(n, c):
+                            continue
+                        t = call_tail(c)
+                        if t == "seek":
+                            pos, why = ("zero", None) if _is_rewind(c) else ("moved", id(c))
+                        elif t in MOVING_TAILS:
+                            pos, why = "moved", id(c)
+                if n.kind == "test" and isinstance(lab, tuple):
+                    fact = fnm.edge_fact(n, lab)
+                    if fact and fact[0] == "is not" and {fact[1], fact[2]} == {"None", "self._size"}:
+                        cached = True
+                return (pos, why, cached)
+            visited, parent = explore(fcfg, (start_pos, None, False), tr)
+            calls = {id(c): c for c in calls_in_func(f, None)}
+            out = []
+            for (nid, st) in sorted(visited, key=lambda x: (x[0], str(x[1]))):
+                if fcfg.nodes[nid].kind == "exit":
+                    out.append((st[0], calls.get(st[1]), st[2], witness(fcfg, parent, (nid, st))))
+            return out
+        # does the constructor already put the handle at its start?
+        ip = first_positional_params(init)
+        hsrc = [assign_value(n, hattr) for n in init.cfg().find(stores(hattr))]
+        if not hsrc:
+            raise AnchorVanished("FileHandle.__init__ no longer stores %s" % hattr)
+        al = tuple(v.id for v in hsrc if isinstance(v, ast.Name) and v.id in ip)
+        init_exits = position_monitor(init, "unknown", al)
+        start_pos = "zero" if init_exits and all(p == "zero" for (p, _, _, _) in init_exits) else "unknown"
+        # (a) get_size
+        r.site(gs, None, "get_size leaves the handle at offset 0")
+        seen = set()
+        for (pos, c, cached, w) in position_monitor(gs, start_pos):
+            if pos == "moved" and ("moved", id(c)) not in seen:
+                seen.add(("moved", id(c)))
+                r.violation(gs, gs.loc(c), "FileHandle.get_size() returns with the file handle at a position other than "
+                            "its start (after %s): the data of the upload is read from there, so the literal cap / the "
+                            "ciphertext do not cover the whole file (path: %s)" % (src(gs, c), w.brief()), w)
+            elif pos == "unknown" and not cached and "unknown" not in seen:
+                seen.add("unknown")
+                r.violation(gs, gs.loc(), "FileHandle.get_size() can return without rewinding the file handle (no "
+                            "seek(0) on %s on the path %s): a handle the caller left at another position is then "
+                            "uploaded from that position" % (hattr, w.brief()), w)
+        # (b) no other method leaves the handle somewhere else
+        nfun = 0
+        for ci in family:
+            for m in ci.methods.values():
+                for f in [m] + _descendants(m):
+                    if f.qual in (gs.qual, rd.qual) or not any(call_tail(c) in MOVING_TAILS | {"seek"}
+                                                                for c in calls_in_func(f, None)):
+                        continue
+                    nfun += 1
+                    done = set()
+                    for (pos, c, cached, w) in position_monitor(f, "unknown", al if f is init else ()):
+                        if pos == "moved" and id(c) not in done:
+                            done.add(id(c))
+                            r.violation(f, f.loc(c), "%s returns with the file handle at a position other than its "
+                                        "start (after %s, path: %s): the data reads that follow miss part of the "
+                                        "file" % (short(f), src(f, c), w.brief()), w)
+        r.site("methods of the FileHandle family that move the handle: %d" % nfun)
+        r.count(nfun)
+        # (c) read(length): sequential, of the requested length
+        r.site(rd, None, "FileHandle.read")
+        rn = FlowNorm(rd)
+        rp = first_positional_params(rd)
+        if not rp:
+            raise AnchorVanished("FileHandle.read(length)")
+        hreads = []
+        for n in rd.cfg().nodes:
+            for c in node_calls(n):
+                if isinstance(c.func, ast.Attribute) and rn.norm(n, c.func.value) == hattr:
+                    if call_tail(c) == "read":
+                        hreads.append((n, c))
+                    elif call_tail(c) in MOVING_TAILS | {"seek"}:
+                        r.violation(rd, rd.loc(c), "FileHandle.read() moves the file handle (%s): successive reads no "
+                                    "longer deliver the file front to back" % src(rd, c))
+        if not hreads:
+            raise AnchorVanished("FileHandle.read no longer reads from %s" % hattr)
+        for (n, c) in hreads:
+            a = arg(c, 0, "size")
+            got = rn.norm(n, a) if a is not None else None
+            r.require(got == rp[0] and len(c.args) + len(c.keywords) == 1, rd, rd.loc(c),
+                      "FileHandle.read(%s) reads %s from the file, expected %s.read(%s)" % (rp[0], src(rd, c), hattr, rp[0]))
+        for sub in family[1:]:
+            if "read" in sub.methods or "get_size" in sub.methods:
+                m = sub.methods.get("read") or sub.methods.get("get_size")
+                r.violation(m, m.loc(), "%s overrides FileHandle.%s: its handle positioning is not covered" % (sub.qual, m.name))
+
+    # -- 8. the hashes behind the cap cover all N shares, whoever receives them ---------------------
+    with ctx.rule("C05.8", "R2/R7", "Encoder: every block of every share is hashed into self.block_hashes on each "
+                  "segment, every share gets its root hash, the UEB hash entries are stored unconditionally, and "
+                  "none of this (nor the shares the codec produces) depends on self.landlords / self.servermap",
+                  expected=7) as r:
+        EN = "immutable.encode:Encoder"
+        enc = idx.cls(EN)
+
+        def tainted(f, e, outer=None):
+            dep = deps_through(f, outer, e) if outer is not None else depends_on(f, e)
+            return sorted(d for d in dep if d in PLACEMENT or any(d.startswith(p + ".") for p in PLACEMENT))
+
+        def must_do(direct):
+            """-> pred_for(f, depth): node predicate 'this statement does the step', either directly
+            (direct(f, fnorm, node)) or by calling an Encoder method every normal path of which does it."""
+            memo = {}
+
+            def always(m, depth):
+                if m.qual not in memo:
+                    memo[m.qual] = False            # recursion guard
+                    memo[m.qual] = not reaches_exit_avoiding(m.cfg(), pred_for(m, depth))
+                return memo[m.qual]
+
+            def pred_for(f, depth=2):
+                fnm = FlowNorm(f)
+
+                def p(n):
+                    if n.kind not in ("stmt", "test"):
+                        return False
+                    if direct(f, fnm, n):
+                        return True
+                    if depth <= 0:
+                        return False
+                    for c in node_calls(n):
+                        if isinstance(c.func, ast.Attribute) and attr_path(c.func.value) == "self":
+                            m = enc.lookup(c.func.attr)
+                            if m is not None and m.qual != f.qual and always(m, depth - 1):
+                                return True
+                    return False
+                return p
+            return pred_for
+
+        def skipping_iterations(f, loop, pred):
+            """Witnesses of one round of the for loop `loop` (from its 'iter' edge back to the head, to the
+            code after the loop, or to the exit) that does not pass a node satisfying pred."""
+            fcfg = f.cfg()
+            body = {id(x) for s in loop.ast.body for x in ast.walk(s)}
+
+            def tr(n, lab, nxt, st):
+                if lab == "exc" or infeasible(n, lab):
+                    return None
+                if st == 0:
+                    return 1 if (n is loop and lab == "iter") else None
+                if n is loop or pred(n):
+                    return None
+                return 1
+            visited, parent = explore(fcfg, 0, tr, start=loop)
+            out = []
+            for (nid, st) in sorted(visited):
+                m = fcfg.nodes[nid]
+                if st == 1 and (m is loop or m.kind == "exit" or (m.ast is not None and id(m.ast) not in body)):
+                    out.append(witness(fcfg, parent, (nid, st)))
+            return out
+
+        def loops_doing(f, pred):
+            fcfg = f.cfg()
+            out = []
+            for L in fcfg.nodes:
+                if L.kind != "iter":
+                    continue
+                body = {id(x) for s in L.ast.body for x in ast.walk(s)}
+                if any(n.ast is not None and id(n.ast) in body and pred(n) for n in fcfg.nodes):
+                    out.append(L)
+            return out
+
+        # (a) _send_segment: the block hash of every share, every segment
+        ss = idx.func(EN + "._send_segment")
+        ssp = first_positional_params(ss)
+        if not ssp:
+            raise AnchorVanished("Encoder._send_segment(shares_and_shareids, segnum)")
+
+        def hashes_block(f, fnm, n):
+            for c in node_calls(n):
+                if not (isinstance(c.func, ast.Attribute) and c.func.attr == "append" and len(c.args) == 1):
+                    continue
+                tgt = fnm.resolve(n, c.func.value) if isinstance(c.func.value, ast.Name) else c.func.value
+                if not (isinstance(tgt, ast.Subscript) and attr_path(tgt.value) == "self.block_hashes"):
+                    continue
+                h = fnm.resolve(n, c.args[0])
+                if isinstance(h, ast.Name):
+                    h = sole_def(fnm, n, h.id) or h
+                if isinstance(h, ast.Call) and call_tail(h) == "block_hash" and len(h.args) == 1:
+                    return True
+            return False
+        bh = must_do(hashes_block)
+        bpred = bh(ss)
+        bloops = loops_doing(ss, bpred)
+        if not bloops:
+            holders = [m for m in enc.methods.values() if any(hashes_block(m, FlowNorm(m), n) for n in m.cfg().nodes)]
+            if not holders:
+                raise AnchorVanished("no self.block_hashes[..].append(block_hash(..)) in Encoder")
+            r.violation(ss, ss.loc(), "Encoder._send_segment has no loop over the shares that hashes each block into "
+                        "self.block_hashes (the hashing is in %s, not reached on every path from the share loop): the "
+                        "block hash trees, the UEB hash and the cap then depend on which shares this upload pushes" % (
+                            ", ".join(short(m) for m in holders)))
+        for L in bloops:
+            r.site(ss, L.ast, "share loop hashing every block")
+            for w in skipping_iterations(ss, L, bpred)[:1]:
+                r.violation(ss, ss.loc(L.ast), "a round of the share loop of Encoder._send_segment can finish without "
+                            "appending block_hash(block) to self.block_hashes (path: %s): that share's block hash tree, "
+                            "and with it share_root_hash, the UEB hash and the read cap, no longer cover every block, so "
+                            "the cap depends on what this upload happens to push" % w.brief(), w)
+            bad = tainted(ss, L.ast.iter)
+            r.require(not bad, ss, ss.loc(L.ast), "the share loop of Encoder._send_segment iterates over something derived "
+                      "from %s: only shares with a bucket writer are hashed" % ", ".join(bad))
+            dep = depends_on(ss, L.ast.iter)
+            r.require(ssp[0] in dep or "self.num_shares" in dep, ss, ss.loc(L.ast), "the share loop of "
+                      "Encoder._send_segment (%s) does not run over the shares it was given (%s)" % (src(ss, L.ast.iter), ssp[0]))
+
+        # (b) every share gets a root hash
+        sa = idx.func(EN + ".send_all_block_hash_trees")
+
+        def stores_root(f, fnm, n):
+            if n.kind != "stmt" or "self.share_root_hashes[]" not in node_stores(n) or not isinstance(n.ast, ast.Assign):
+                return False
+            return any(call_tail(c) == "HashTree" for c in calls_feeding(f, n.ast.value))
+        rh = must_do(stores_root)
+        rpred = rh(sa)
+        rloops = loops_doing(sa, rpred)
+        roots = [(m, n) for m in enc.methods.values() for n in m.cfg().nodes if stores_root(m, FlowNorm(m), n)]
+        if not roots:
+            raise AnchorVanished("no self.share_root_hashes[..] = HashTree(..)[0] in Encoder")
+        if not rloops:
+            r.violation(sa, sa.loc(), "Encoder.send_all_block_hash_trees has no loop that sets self.share_root_hashes[..] "
+                        "for every share on every path (the store is in %s): shares without a bucket writer get no root "
+                        "hash" % ", ".join(short(m) for (m, _) in roots))
+        for L in rloops:
+            r.site(sa, L.ast, "loop giving every share its root hash")
+            for w in skipping_iterations(sa, L, rpred)[:1]:
+                r.violation(sa, sa.loc(L.ast), "a round of the loop of Encoder.send_all_block_hash_trees can finish without "
+                            "self.share_root_hashes[shareid] being set (path: %s)" % w.brief(), w)
+            bad = tainted(sa, L.ast.iter)
+            r.require(not bad, sa, sa.loc(L.ast), "Encoder.send_all_block_hash_trees iterates over something derived from "
+                      "%s: only shares with a bucket writer get a root hash" % ", ".join(bad))
+            dep = depends_on(sa, L.ast.iter)
+            r.require("self.block_hashes" in dep or "self.num_shares" in dep, sa, sa.loc(L.ast),
+                      "Encoder.send_all_block_hash_trees (%s) does not run over all shares" % src(sa, L.ast.iter))
+        for (m, n) in roots:
+            r.site(m, n.ast, "share root hash")
+            bad = tainted(m, n.ast.value)
+            r.require(not bad, m, m.loc(n.ast), "the share root hash depends on %s" % ", ".join(bad))
+        # the accumulators are created for all shares
+        for path in ("self.block_hashes", "self.share_root_hashes"):
+            for m in enc.methods.values():
+                for n in m.cfg().find(stores(path)):
+                    v = assign_value(n, path)
+                    bad = tainted(m, v) if v is not None else []
+                    r.require(not bad, m, m.loc(n.ast), "%s is sized from %s" % (path, ", ".join(bad)))
+
+        # (c) the hash entries of the URI extension block
+        want = {"share_root_hash": ("self.share_root_hashes", "HashTree"),
+                "crypttext_root_hash": ("self._crypttext_hashes", "HashTree"),
+                "crypttext_hash": ("self._crypttext_hasher", "digest")}
+        found = {}
+        for m in enc.methods.values():
+            for f in [m] + _descendants(m):
+                for n in f.cfg().nodes:
+                    if n.kind == "stmt" and isinstance(n.ast, ast.Assign) and "self.uri_extension_data[]" in node_stores(n):
+                        for t in n.ast.targets:
+                            if isinstance(t, ast.Subscript) and attr_path(t.value) == "self.uri_extension_data" \
+                                    and isinstance(t.slice, ast.Constant) and t.slice.value in want:
+                                found.setdefault(t.slice.value, []).append((f, n))
+        for key, (source, fn_tail) in sorted(want.items()):
+            if key not in found:
+                raise AnchorVanished("no self.uri_extension_data[%r] = .. in Encoder" % key)
+            for (f, n) in found[key]:
+                r.site(f, n.ast, "UEB entry " + key)
+                outer = f.parent
+                bad = tainted(f, n.ast.value, outer)
+                r.require(not bad, f, f.loc(n.ast), "the URI-extension entry %r depends on %s: the cap changes with the "
+                          "placement of the shares" % (key, ", ".join(bad)))
+                dep = deps_through(f, outer, n.ast.value) if outer is not None else depends_on(f, n.ast.value)
+                fed = any(call_tail(c) == fn_tail for c in calls_feeding(f, n.ast.value))
+                r.require(source in dep and fed, f, f.loc(n.ast), "the URI-extension entry %r is %s, expected %s(..) over %s" % (
+                    key, src(f, n.ast.value), fn_tail, source))
+            # stored on every normal path of the function that stores it (not under a landlord / any other test)
+            for f in {x.qual: x for (x, _) in found[key]}.values():
+                mine = {id(n.ast) for (x, n) in found[key] if x is f}
+                for w in reaches_exit_avoiding(f.cfg(), lambda n, _m=mine: n.ast is not None and id(n.ast) in _m)[:1]:
+                    r.violation(f, f.loc(), "%s can finish without storing the URI-extension entry %r (path: %s): the "
+                                "UEB hash in the cap then depends on the path taken" % (short(f), key, w.brief()), w)
+
+        # (d) the codec is asked for all shares
+        es = idx.func(EN + "._encode_segment")
+        encs = [(f, c) for f in [es] + _descendants(es) for c in calls_in_func(f, "encode")
+                if isinstance(c.func, ast.Attribute) and {"self._codec", "self._tail_codec"} & (
+                    deps_through(f, f.parent, c.func.value) if f is not es else depends_on(f, c.func.value))]
+        if not encs:
+            raise AnchorVanished("codec.encode(..) call in Encoder._encode_segment")
+        for (f, c) in encs:
+            r.site(f, c, "codec.encode")
+            for a in list(c.args) + [k.value for k in c.keywords]:
+                bad = tainted(f, a, f.parent if f is not es else None)
+                r.require(not bad, f, f.loc(c), "codec.encode(.. %s ..) depends on %s: shares without a bucket writer are "
+                          "not produced and not hashed" % (src(f, a), ", ".join(bad)))
 
 
 def _choose(e, opath, is_set, defs, depth=0):
